@@ -34,6 +34,14 @@ Definition LEVELS : list bytes :=
   [[69;88;67;69;80;84;73;79;78]; [69;82;82;79;82]; [87;65;82;78]; [73;78;70;79]; [68;69;66;85;71]; [84;82;65;67;69]].
 (* resolve_external_location: max_retries = min(config.max_retries, 2) *)
 Definition RETRY_CAP : N := 2.
+(* retry_types of resolve_external_location: "OSError", "pa.ArrowInvalid", "aiohttp.ClientError" *)
+Definition RETRY_TYPES : list bytes :=
+  [[79;83;69;114;114;111;114]; [112;97;46;65;114;114;111;119;73;110;118;97;108;105;100];
+   [97;105;111;104;116;116;112;46;67;108;105;101;110;116;69;114;114;111;114]].
+(* maybe_externalize_collector writes ALL of out.batches into the external stream *)
+Definition COLLECTOR_SERIALIZES_ALL : bool := true.
+(* _build_pointer_request_body passes no sha256 to make_external_location_batch *)
+Definition REQUEST_POINTER_HAS_SHA : bool := false.
 (* order of the checks inside _fetch_and_resolve, as tags:
    0 sha256, 1 nested pointer (per batch), 2 log dispatch (per batch), 3 no data batch, 4 several data batches, 5 schema *)
 Definition CHECK_ORDER : list N := [0; 1; 2; 3; 4; 5].
@@ -79,7 +87,8 @@ Record batch := mkBatch {
 
 Definition log := (bytes * bytes)%type.   (* (level, message) *)
 
-Inductive kind := KData | KLog (l m : bytes) | KExc | KBadLevel.
+(* KSkip: a log batch whose level is not a Level member is consumed and ignored *)
+Inductive kind := KData | KLog (l m : bytes) | KExc | KSkip.
 
 (* _dispatch_log_or_error *)
 Definition classify (b : batch) : kind :=
@@ -91,7 +100,7 @@ Definition classify (b : batch) : kind :=
            | Some l, Some msg =>
                if bytes_eqb l L_EXCEPTION then KExc
                else if existsb (bytes_eqb l) LEVELS then KLog l msg
-               else KBadLevel
+               else KSkip
            | _, _ => KData
            end
   end.
@@ -115,7 +124,7 @@ Inductive fetched :=
 | FData (v : view).
 
 Inductive err :=
-| EShaMismatch | ELoop | ERpc | EBadLog | ENoData | EMulti | ESchema | EFetchFatal | EExhausted.
+| EShaMismatch | ELoop | ERpc | ENoData | EMulti | ESchema | EFetchFatal | EExhausted.
 
 Inductive sres := SErr (e : err) | SRetry | SDone (datas : list batch).
 
@@ -128,7 +137,7 @@ Fixpoint scan (its : list item) : list log * sres :=
       if has_loc b then ([], SErr ELoop)
       else match classify b with
            | KExc => ([], SErr ERpc)
-           | KBadLevel => ([], SErr EBadLog)
+           | KSkip => scan r
            | KLog l m => let '(lg, s) := scan r in ((l, m) :: lg, s)
            | KData => let '(lg, s) := scan r in
                       (lg, match s with SDone ds => SDone (b :: ds) | x => x end)
@@ -169,7 +178,6 @@ Definition attempt (expected_schema : N) (url : bytes) (exp_sha : option bytes) 
   end.
 
 Inductive outcome :=
-| ONone                  (* no outcome (externalisation cases of run_case) *)
 | OPass (b : batch)      (* not a pointer, or no config: returned unchanged *)
 | ODeliver (b : batch)   (* resolved data batch handed to the caller *)
 | OFail (e : err).
@@ -259,12 +267,11 @@ Fixpoint drain (res : batch -> list log * outcome) (wire : list batch) : list lo
       match classify b with
       | KLog l m => let '(lg, ds, e) := drain res r in ((l, m) :: lg, ds, e)
       | KExc => ([], [], Some ERpc)
-      | KBadLevel => ([], [], Some EBadLog)
+      | KSkip => drain res r
       | KData =>
           let '(lg1, o) := res b in
           match o with
           | OFail e => (lg1, [], Some e)
-          | ONone => (lg1, [], None)
           | OPass d | ODeliver d => let '(lg, ds, e) := drain res r in (lg1 ++ lg, d :: ds, e)
           end
       end
@@ -291,12 +298,11 @@ Definition upload_eqb (x y : upload) : bool :=
   (u_schema x =? u_schema y) && list_eqb batch_eqb (u_items x) (u_items y) && option_eqb N.eqb (u_enc x) (u_enc y).
 Definition err_code (e : err) : N :=
   match e with
-  | EShaMismatch => 0 | ELoop => 1 | ERpc => 2 | EBadLog => 3 | ENoData => 4 | EMulti => 5
+  | EShaMismatch => 0 | ELoop => 1 | ERpc => 2 | ENoData => 4 | EMulti => 5
   | ESchema => 6 | EFetchFatal => 7 | EExhausted => 8
   end.
 Definition outcome_eqb (x y : outcome) : bool :=
   match x, y with
-  | ONone, ONone => true
   | OPass a, OPass b => batch_eqb a b
   | ODeliver a, ODeliver b => batch_eqb a b
   | OFail a, OFail b => err_code a =? err_code b
@@ -320,24 +326,24 @@ Fixpoint tab_lookup (tab : list (N * list batch * bytes)) (s : N) (bs : list bat
   end.
 
 Record result := mkResult {
-  r_wire : list batch; r_upload : option upload; r_logs : list log; r_out : outcome
+  r_wire : list batch; r_upload : option upload; r_logs : list log; r_out : option outcome
 }.
 
 Definition run_case (c : case) : result :=
   match c with
   | CExtBatch cf url tab sz b =>
-      let '(w, u) := ext_batch (tab_lookup tab) url cf sz b in mkResult [w] u [] ONone
+      let '(w, u) := ext_batch (tab_lookup tab) url cf sz b in mkResult [w] u [] None
   | CExtColl cf url tab s cycle dsz =>
-      let '(w, u) := ext_collector (tab_lookup tab) url cf s cycle dsz in mkResult w u [] ONone
+      let '(w, u) := ext_collector (tab_lookup tab) url cf s cycle dsz in mkResult w u [] None
   | CReqPtr req url =>
-      let '(p, u) := request_pointer req url in mkResult [p] (Some u) [] ONone
+      let '(p, u) := request_pointer req url in mkResult [p] (Some u) [] None
   | CResolve hc mr ol b fs =>
-      let '(lg, o) := resolve hc mr ol b fs in mkResult [] None lg o
+      let '(lg, o) := resolve hc mr ol b fs in mkResult [] None lg (Some o)
   end.
 
 Definition result_eqb (x y : result) : bool :=
   list_eqb batch_eqb (r_wire x) (r_wire y) && option_eqb upload_eqb (r_upload x) (r_upload y)
-  && list_eqb log_eqb (r_logs x) (r_logs y) && outcome_eqb (r_out x) (r_out y).
+  && list_eqb log_eqb (r_logs x) (r_logs y) && option_eqb outcome_eqb (r_out x) (r_out y).
 
 (* ---- bytes, hash, parser, serializer, codecs, object store (abstract) ---- *)
 Section Concrete.
